@@ -100,6 +100,14 @@ def r21(ctx: Ctx) -> RuleReport:
     for name in ('edges', 'attributes'):
         fi = repo.func(G, f'Graph.{name}')
         calls = [c for c in walk_local(fi.node) if isinstance(c, ast.Call) and isinstance(c.func, ast.Attribute) and c.func.attr == '_filter_triples']
+        if not calls:
+            # through a helper method that takes the same three filters and hands them to _filter_triples
+            for c in [x for x in walk_local(fi.node) if isinstance(x, ast.Call) and isinstance(x.func, ast.Attribute) and norm(x.func.value) == 'self']:
+                hs = [t.func for t in ctx.cg.resolve_call(c, fi) if t.kind == 'func' and t.func.cls is not None and t.func.cls.fq == fi.cls.fq]
+                if len(hs) == 1 and hs[0].positional[1:4] == fi.positional[1:4]:
+                    inner = [y for y in walk_local(hs[0].node) if isinstance(y, ast.Call) and isinstance(y.func, ast.Attribute) and y.func.attr == '_filter_triples']
+                    if inner and all([norm(a) for a in y.args] == hs[0].positional[1:4] and not y.keywords for y in inner):
+                        calls.append(c)
         for c in calls:
             got = [norm(a) for a in c.args] + [f'{k.arg}={norm(k.value)}' for k in c.keywords]
             want_args = fi.positional[1:4]
